@@ -204,7 +204,7 @@ class AngleBracketedChar(ExpressionToken):
         code = get_as_int(state, "Unicode code point", self, self.expr, bitness=None, unsigned=False)
         try:
             return chr(code)
-        except ValueError:
+        except (ValueError, OverflowError):
             self.reported_error = True
             reports.error(
                 "value-out-of-bounds",
